@@ -118,6 +118,14 @@ func (g *pg) tryExpr(ty Ty, d int, sc scope) val.V {
 		if g.chance("hstmt", 2) {
 			h = append(h, call("trace!", sym(cname)))
 		}
+		if g.chance("hthrow-early", 8) {
+			// a leading (not last) handler form throws: finally must still run, the later forms must not
+			g.inTry++
+			h = append(h, g.throwPoint(d-1, sc2))
+			g.inTry--
+			g.use("handler-throws")
+			g.use("handler-throws-in-leading-form")
+		}
 		hk := g.pick("handler", 14)
 		if (hk == 3 || hk == 4) && g.inTry == 0 && g.chance("escape", 2) {
 			hk = 9 // half of the escaping handlers become ordinary ones
